@@ -214,6 +214,7 @@ def trees(tier):
     t = S.D1() + S.D2() + S.D3flow() + named_variants()
     if tier != "quick":
         t += S.D3_quick() + S.D3()
+    t += S.DX()
     seen, out = set(), []
     for s in t:
         k = S.key(s)
